@@ -5,6 +5,7 @@ import Sbepp.Gen.Scope
 
 namespace Sbepp.Gen.Scope
 open Sbepp Sbepp.Schema
+open Sbepp.Extracted
 
 theorem mangleFrom_ok (name : String) (ok : String → Bool) (fuel n : Nat) (m : String)
     (h : mangleFrom name ok fuel n = some m) : ok m = true := by
@@ -46,13 +47,97 @@ theorem entryName_ne (m : String) : entryName m ≠ m := by
   have := congrArg String.length h
   simp [entryName, String.length_append] at this
 
-/-! ### types -/
+/-! ### the extracted decision sites -/
 
-theorem stepType_nodup (nm : List String) (st st' : NState) (ev : TEvent)
-    (h : stepType nm st ev = some st') (hn : st.mangled.Nodup) : st'.mangled.Nodup := by
+open Templates (NameSet NameRef InsertSite) in
+/-- what `sitesExpected` says about the four decisions of names_generator.hpp -/
+theorem sites_of_expected (h : sitesExpected = true) :
+    Templates.publicTypeSite = ⟨[(.members, .own)], [.members, .mangled, .nonMangled], [.mangledName], []⟩ ∧
+    Templates.inlineTypeSite =
+      ⟨[(.members, .own), (.mangled, .own)], [.members, .mangled, .nonMangled], [.mangledName], [.own]⟩ ∧
+    Templates.messageSite = ⟨[(.members, .own)], [.members, .mangled, .nonMangled], [.mangledName], []⟩ ∧
+    Templates.groupSite =
+      ⟨[(.mangled, .own), (.mangled, .ownEntry), (.members, .ownEntry), (.members, .own)],
+       [.members, .mangled, .nonMangled], [.mangledName, .mangledEntry], [.own, .ownEntry]⟩ := by
+  simp only [sitesExpected, Bool.and_eq_true, beq_iff_eq] at h
+  exact ⟨h.1.1.1.2, h.1.1.2, h.1.2, h.2⟩
+
+/-- with the expected sites the site-driven step is the written-out one -/
+theorem stepType_eq (h : sitesExpected = true) (nm : List String) (st : NState) (ev : TEvent) :
+    stepType nm st ev = stepTypeE nm st ev := by
+  obtain ⟨h1, h2, _, _⟩ := sites_of_expected h
   cases ev with
   | pub n members =>
-    simp only [stepType] at h
+    simp only [stepType, stepTypeE, h1, siteCond, siteReserved, siteInsert, pickSet, pickName, List.any_cons,
+      List.any_nil, Bool.or_false, List.flatMap_cons, List.flatMap_nil, List.append_nil, List.map_cons, List.map_nil,
+      List.reverse_cons, List.reverse_nil, List.nil_append, List.cons_append, List.append_assoc]
+  | inl n members =>
+    simp only [stepType, stepTypeE, h2, siteCond, siteReserved, siteInsert, pickSet, pickName, List.any_cons,
+      List.any_nil, Bool.or_false, List.flatMap_cons, List.flatMap_nil, List.append_nil, List.map_cons, List.map_nil,
+      List.reverse_cons, List.reverse_nil, List.nil_append, List.cons_append, List.append_assoc]
+
+theorem runTypes_eq (h : sitesExpected = true) (nm : List String) (evs : List TEvent) (st : NState) :
+    runTypes nm evs st = runTypesE nm evs st := by
+  induction evs generalizing st with
+  | nil => rfl
+  | cons e es ih =>
+    simp only [runTypes, runTypesE, stepType_eq h]
+    cases stepTypeE nm st e with
+    | none => rfl
+    | some st1 => simp only [Option.bind_some, ih]
+
+theorem stepMessage_eq (h : sitesExpected = true) (nm : List String) (st : MState) (ev : MEvent) :
+    stepMessage nm st ev = stepMessageE nm st ev := by
+  obtain ⟨_, _, h3, h4⟩ := sites_of_expected h
+  cases ev with
+  | msg n members =>
+    simp only [stepMessage, stepMessageE, h3, siteCond, siteReserved, siteInsert, pickSet, pickName, List.any_cons,
+      List.any_nil, Bool.or_false, List.flatMap_cons, List.flatMap_nil, List.append_nil, List.map_cons, List.map_nil,
+      List.reverse_cons, List.reverse_nil, List.nil_append, List.cons_append, List.append_assoc]
+  | grp n em =>
+    simp only [stepMessage, stepMessageE, h4, siteCond, siteReserved, siteInsert, pickSet, pickName, List.any_cons,
+      List.any_nil, Bool.or_false, List.flatMap_cons, List.flatMap_nil, List.append_nil, List.map_cons, List.map_nil,
+      List.reverse_cons, List.reverse_nil, List.nil_append, List.cons_append, List.append_assoc, Bool.or_assoc]
+
+theorem runMessages_eq (h : sitesExpected = true) (nm : List String) (evs : List MEvent) (st : MState) :
+    runMessages nm evs st = runMessagesE nm evs st := by
+  induction evs generalizing st with
+  | nil => rfl
+  | cons e es ih =>
+    simp only [runMessages, runMessagesE, stepMessage_eq h]
+    cases stepMessageE nm st e with
+    | none => rfl
+    | some st1 => simp only [Option.bind_some, ih]
+
+theorem nodup_snoc {xs : List String} {a : String} (h : xs.Nodup) (ha : a ∉ xs) : (xs ++ [a]).Nodup := by
+  refine List.nodup_append.mpr ⟨h, List.nodup_cons.mpr ⟨List.not_mem_nil, List.nodup_nil⟩, ?_⟩
+  intro x hx y hy hxy
+  simp only [List.mem_singleton] at hy
+  subst hy; subst hxy
+  exact ha hx
+
+theorem nodup_snoc2 {xs : List String} {a b : String} (h : xs.Nodup) (ha : a ∉ xs) (hb : b ∉ xs) (hab : a ≠ b) :
+    (xs ++ [a, b]).Nodup := by
+  have : xs ++ [a, b] = (xs ++ [a]) ++ [b] := by simp
+  rw [this]
+  refine nodup_snoc (nodup_snoc h ha) ?_
+  simp only [List.mem_append, List.mem_singleton, not_or]
+  exact ⟨hb, fun hh => hab hh.symm⟩
+
+theorem dupNames_nil (xs : List String) (h : xs.Nodup) : dupNames xs = [] := by
+  induction xs with
+  | nil => rfl
+  | cons x xs ih =>
+    have hc := List.nodup_cons.mp h
+    simp [dupNames, hc.1, ih hc.2]
+
+/-! ### types -/
+
+theorem stepTypeE_nodup (nm : List String) (st st' : NState) (ev : TEvent)
+    (h : stepTypeE nm st ev = some st') (hn : st.mangled.Nodup) : st'.mangled.Nodup := by
+  cases ev with
+  | pub n members =>
+    simp only [stepTypeE] at h
     by_cases hc : members.contains n = true
     · simp only [hc, if_true] at h
       obtain ⟨m, hm, hst⟩ := Option.map_eq_some_iff.mp h
@@ -63,7 +148,7 @@ theorem stepType_nodup (nm : List String) (st st' : NState) (ev : TEvent)
     · simp only [hc, Bool.false_eq_true, if_false, Option.some.injEq] at h
       subst h; exact hn
   | inl n members =>
-    simp only [stepType] at h
+    simp only [stepTypeE] at h
     by_cases hc : (members.contains n || st.mangled.contains n) = true
     · simp only [hc, if_true] at h
       obtain ⟨m, hm, hst⟩ := Option.map_eq_some_iff.mp h
@@ -76,17 +161,69 @@ theorem stepType_nodup (nm : List String) (st st' : NState) (ev : TEvent)
       simp only [Bool.or_eq_true, not_or, Bool.not_eq_true, List.contains_eq_mem, decide_eq_false_iff_not] at hc
       exact List.nodup_cons.mpr ⟨hc.2, hn⟩
 
-theorem runTypes_nodup (nm : List String) (evs : List TEvent) (st st' : NState)
-    (h : runTypes nm evs st = some st') (hn : st.mangled.Nodup) : st'.mangled.Nodup := by
+/-- the names declared in `S::detail::types` stay pairwise distinct and are all recorded as taken -/
+theorem stepTypeE_declared (nm : List String) (st st' : NState) (ev : TEvent)
+    (h : stepTypeE nm st ev = some st') (hn : st.declared.Nodup) (hs : ∀ x ∈ st.declared, x ∈ st.mangled) :
+    st'.declared.Nodup ∧ ∀ x ∈ st'.declared, x ∈ st'.mangled := by
+  cases ev with
+  | pub n members =>
+    simp only [stepTypeE] at h
+    by_cases hc : members.contains n = true
+    · simp only [hc, if_true] at h
+      obtain ⟨m, hm, hst⟩ := Option.map_eq_some_iff.mp h
+      subst hst
+      have hf := mangle_fresh _ _ _ hm
+      simp only [List.mem_append, not_or] at hf
+      refine ⟨nodup_snoc hn (fun hx => hf.1.2 (hs m hx)), ?_⟩
+      intro x hx
+      simp only [List.mem_append, List.mem_singleton] at hx
+      rcases hx with hx | hx
+      · exact List.mem_cons_of_mem _ (hs x hx)
+      · subst hx; exact List.mem_cons_self
+    · simp only [hc, Bool.false_eq_true, if_false, Option.some.injEq] at h
+      subst h; exact ⟨hn, hs⟩
+  | inl n members =>
+    simp only [stepTypeE] at h
+    by_cases hc : (members.contains n || st.mangled.contains n) = true
+    · simp only [hc, if_true] at h
+      obtain ⟨m, hm, hst⟩ := Option.map_eq_some_iff.mp h
+      subst hst
+      have hf := mangle_fresh _ _ _ hm
+      simp only [List.mem_append, not_or] at hf
+      refine ⟨nodup_snoc hn (fun hx => hf.1.2 (hs m hx)), ?_⟩
+      intro x hx
+      simp only [List.mem_append, List.mem_singleton] at hx
+      rcases hx with hx | hx
+      · exact List.mem_cons_of_mem _ (hs x hx)
+      · subst hx; exact List.mem_cons_self
+    · simp only [hc, Bool.false_eq_true, if_false, Option.some.injEq] at h
+      subst h
+      simp only [Bool.or_eq_true, not_or, Bool.not_eq_true, List.contains_eq_mem, decide_eq_false_iff_not] at hc
+      refine ⟨nodup_snoc hn (fun hx => hc.2 (hs n hx)), ?_⟩
+      intro x hx
+      simp only [List.mem_append, List.mem_singleton] at hx
+      rcases hx with hx | hx
+      · exact List.mem_cons_of_mem _ (hs x hx)
+      · subst hx; exact List.mem_cons_self
+
+theorem runTypesE_nodup (nm : List String) (evs : List TEvent) (st st' : NState)
+    (h : runTypesE nm evs st = some st') (hn : st.mangled.Nodup) (hd : st.declared.Nodup)
+    (hs : ∀ x ∈ st.declared, x ∈ st.mangled) : st'.mangled.Nodup ∧ st'.declared.Nodup := by
   induction evs generalizing st with
-  | nil => simp only [runTypes, Option.some.injEq] at h; subst h; exact hn
+  | nil => simp only [runTypesE, Option.some.injEq] at h; subst h; exact ⟨hn, hd⟩
   | cons e es ih =>
-    simp only [runTypes] at h
-    cases hs : stepType nm st e with
-    | none => simp [hs] at h
+    simp only [runTypesE] at h
+    cases hst : stepTypeE nm st e with
+    | none => simp [hst] at h
     | some st1 =>
-      simp only [hs, Option.bind_some] at h
-      exact ih st1 h (stepType_nodup nm st st1 e hs hn)
+      simp only [hst, Option.bind_some] at h
+      have := stepTypeE_declared nm st st1 e hst hd hs
+      exact ih st1 h (stepTypeE_nodup nm st st1 e hst hn) this.1 this.2
+
+theorem runTypes_nodup (hx : sitesExpected = true) (nm : List String) (evs : List TEvent) (st st' : NState)
+    (h : runTypes nm evs st = some st') (hn : st.mangled.Nodup) (hd : st.declared.Nodup)
+    (hs : ∀ x ∈ st.declared, x ∈ st.mangled) : st'.mangled.Nodup ∧ st'.declared.Nodup :=
+  runTypesE_nodup nm evs st st' (runTypes_eq hx nm evs st ▸ h) hn hd hs
 
 /-- members of the entity an event is about -/
 def TEvent.members : TEvent → List String
@@ -95,13 +232,13 @@ def TEvent.members : TEvent → List String
 
 /-- every step appends exactly one decision, whose implementation name is not a member name of the entity
     and, when it was mangled, is none of the reserved names -/
-theorem stepType_decision (nm : List String) (st st' : NState) (ev : TEvent)
-    (h : stepType nm st ev = some st') :
+theorem stepTypeE_decision (nm : List String) (st st' : NState) (ev : TEvent)
+    (h : stepTypeE nm st ev = some st') :
     ∃ a, st'.out = st.out ++ [a] ∧ a.impl ∉ ev.members ∧
       (a.impl ≠ a.name → a.impl ∉ st.mangled ∧ a.impl ∉ nm ∧ ∃ k, a.impl = suffixed a.name k) := by
   cases ev with
   | pub n members =>
-    simp only [stepType] at h
+    simp only [stepTypeE] at h
     by_cases hc : members.contains n = true
     · simp only [hc, if_true] at h
       obtain ⟨m, hm, hst⟩ := Option.map_eq_some_iff.mp h
@@ -114,7 +251,7 @@ theorem stepType_decision (nm : List String) (st st' : NState) (ev : TEvent)
       refine ⟨⟨n, n, true⟩, rfl, ?_, fun hne => absurd rfl hne⟩
       simpa [TEvent.members] using hc
   | inl n members =>
-    simp only [stepType] at h
+    simp only [stepTypeE] at h
     by_cases hc : (members.contains n || st.mangled.contains n) = true
     · simp only [hc, if_true] at h
       obtain ⟨m, hm, hst⟩ := Option.map_eq_some_iff.mp h
@@ -127,13 +264,19 @@ theorem stepType_decision (nm : List String) (st st' : NState) (ev : TEvent)
       simp only [Bool.or_eq_true, not_or, Bool.not_eq_true, List.contains_eq_mem, decide_eq_false_iff_not] at hc
       exact ⟨⟨n, n, false⟩, rfl, hc.1, fun hne => absurd rfl hne⟩
 
+theorem stepType_decision (hx : sitesExpected = true) (nm : List String) (st st' : NState) (ev : TEvent)
+    (h : stepType nm st ev = some st') :
+    ∃ a, st'.out = st.out ++ [a] ∧ a.impl ∉ ev.members ∧
+      (a.impl ≠ a.name → a.impl ∉ st.mangled ∧ a.impl ∉ nm ∧ ∃ k, a.impl = suffixed a.name k) :=
+  stepTypeE_decision nm st st' ev (stepType_eq hx nm st ev ▸ h)
+
 /-! ### messages -/
 
-theorem stepMessage_nodup (nm : List String) (st st' : MState) (ev : MEvent)
-    (h : stepMessage nm st ev = some st') (hn : st.mangled.Nodup) : st'.mangled.Nodup := by
+theorem stepMessageE_nodup (nm : List String) (st st' : MState) (ev : MEvent)
+    (h : stepMessageE nm st ev = some st') (hn : st.mangled.Nodup) : st'.mangled.Nodup := by
   cases ev with
   | msg n members =>
-    simp only [stepMessage] at h
+    simp only [stepMessageE] at h
     by_cases hc : members.contains n = true
     · simp only [hc, if_true] at h
       obtain ⟨m, hm, hst⟩ := Option.map_eq_some_iff.mp h
@@ -144,7 +287,7 @@ theorem stepMessage_nodup (nm : List String) (st st' : MState) (ev : MEvent)
     · simp only [hc, Bool.false_eq_true, if_false, Option.some.injEq] at h
       subst h; exact hn
   | grp n em =>
-    simp only [stepMessage] at h
+    simp only [stepMessageE] at h
     by_cases hc : (st.mangled.contains n || st.mangled.contains (entryName n) || em.contains (entryName n) ||
         em.contains n) = true
     · simp only [hc, if_true] at h
@@ -162,29 +305,85 @@ theorem stepMessage_nodup (nm : List String) (st st' : MState) (ev : MEvent)
       simp only [List.mem_cons, not_or]
       exact ⟨entryName_ne n, hc.1.1.2⟩
 
-theorem runMessages_nodup (nm : List String) (evs : List MEvent) (st st' : MState)
-    (h : runMessages nm evs st = some st') (hn : st.mangled.Nodup) : st'.mangled.Nodup := by
+/-- the class names declared in `S::detail::messages` (group classes, entry classes, mangled message classes)
+    stay pairwise distinct and are all recorded as taken -/
+theorem stepMessageE_declared (nm : List String) (st st' : MState) (ev : MEvent)
+    (h : stepMessageE nm st ev = some st') (hn : st.declared.Nodup) (hs : ∀ x ∈ st.declared, x ∈ st.mangled) :
+    st'.declared.Nodup ∧ ∀ x ∈ st'.declared, x ∈ st'.mangled := by
+  cases ev with
+  | msg n members =>
+    simp only [stepMessageE] at h
+    by_cases hc : members.contains n = true
+    · simp only [hc, if_true] at h
+      obtain ⟨m, hm, hst⟩ := Option.map_eq_some_iff.mp h
+      subst hst
+      have hf := mangle_fresh _ _ _ hm
+      simp only [List.mem_append, not_or] at hf
+      refine ⟨nodup_snoc hn (fun hx => hf.1.2 (hs m hx)), ?_⟩
+      intro x hx
+      simp only [List.mem_append, List.mem_singleton] at hx
+      rcases hx with hx | hx
+      · exact List.mem_cons_of_mem _ (hs x hx)
+      · subst hx; exact List.mem_cons_self
+    · simp only [hc, Bool.false_eq_true, if_false, Option.some.injEq] at h
+      subst h; exact ⟨hn, hs⟩
+  | grp n em =>
+    simp only [stepMessageE] at h
+    by_cases hc : (st.mangled.contains n || st.mangled.contains (entryName n) || em.contains (entryName n) ||
+        em.contains n) = true
+    · simp only [hc, if_true] at h
+      obtain ⟨m, hm, hst⟩ := Option.map_eq_some_iff.mp h
+      subst hst
+      obtain ⟨h1, h2⟩ := mangleGroup_fresh _ _ _ hm
+      simp only [List.mem_append, not_or] at h1 h2
+      refine ⟨nodup_snoc2 hn (fun hx => h1.1.2 (hs _ hx)) (fun hx => h2.1.2 (hs _ hx)) (entryName_ne m).symm, ?_⟩
+      intro x hx
+      simp only [List.mem_append, List.mem_cons, List.not_mem_nil, or_false] at hx
+      rcases hx with hx | hx | hx
+      · exact List.mem_cons_of_mem _ (List.mem_cons_of_mem _ (hs x hx))
+      · subst hx; exact List.mem_cons_of_mem _ List.mem_cons_self
+      · subst hx; exact List.mem_cons_self
+    · simp only [hc, Bool.false_eq_true, if_false, Option.some.injEq] at h
+      subst h
+      simp only [Bool.or_eq_true, not_or, Bool.not_eq_true, List.contains_eq_mem, decide_eq_false_iff_not] at hc
+      refine ⟨nodup_snoc2 hn (fun hx => hc.1.1.1 (hs _ hx)) (fun hx => hc.1.1.2 (hs _ hx)) (entryName_ne n).symm, ?_⟩
+      intro x hx
+      simp only [List.mem_append, List.mem_cons, List.not_mem_nil, or_false] at hx
+      rcases hx with hx | hx | hx
+      · exact List.mem_cons_of_mem _ (List.mem_cons_of_mem _ (hs x hx))
+      · subst hx; exact List.mem_cons_of_mem _ List.mem_cons_self
+      · subst hx; exact List.mem_cons_self
+
+theorem runMessagesE_nodup (nm : List String) (evs : List MEvent) (st st' : MState)
+    (h : runMessagesE nm evs st = some st') (hn : st.mangled.Nodup) (hd : st.declared.Nodup)
+    (hs : ∀ x ∈ st.declared, x ∈ st.mangled) : st'.mangled.Nodup ∧ st'.declared.Nodup := by
   induction evs generalizing st with
-  | nil => simp only [runMessages, Option.some.injEq] at h; subst h; exact hn
+  | nil => simp only [runMessagesE, Option.some.injEq] at h; subst h; exact ⟨hn, hd⟩
   | cons e es ih =>
-    simp only [runMessages] at h
-    cases hs : stepMessage nm st e with
-    | none => simp [hs] at h
+    simp only [runMessagesE] at h
+    cases hst : stepMessageE nm st e with
+    | none => simp [hst] at h
     | some st1 =>
-      simp only [hs, Option.bind_some] at h
-      exact ih st1 h (stepMessage_nodup nm st st1 e hs hn)
+      simp only [hst, Option.bind_some] at h
+      have := stepMessageE_declared nm st st1 e hst hd hs
+      exact ih st1 h (stepMessageE_nodup nm st st1 e hst hn) this.1 this.2
+
+theorem runMessages_nodup (hx : sitesExpected = true) (nm : List String) (evs : List MEvent) (st st' : MState)
+    (h : runMessages nm evs st = some st') (hn : st.mangled.Nodup) (hd : st.declared.Nodup)
+    (hs : ∀ x ∈ st.declared, x ∈ st.mangled) : st'.mangled.Nodup ∧ st'.declared.Nodup :=
+  runMessagesE_nodup nm evs st st' (runMessages_eq hx nm evs st ▸ h) hn hd hs
 
 def MEvent.members : MEvent → List String
   | .msg _ m => m
   | .grp _ m => m
 
 /-- message class / group class / entry class names are no member names of their level -/
-theorem stepMessage_decision (nm : List String) (st st' : MState) (ev : MEvent)
-    (h : stepMessage nm st ev = some st') :
+theorem stepMessageE_decision (nm : List String) (st st' : MState) (ev : MEvent)
+    (h : stepMessageE nm st ev = some st') :
     ∃ a, st'.out = st.out ++ [a] ∧ a.impl ∉ ev.members ∧ (a.isMessage = false → a.entry ∉ ev.members) := by
   cases ev with
   | msg n members =>
-    simp only [stepMessage] at h
+    simp only [stepMessageE] at h
     by_cases hc : members.contains n = true
     · simp only [hc, if_true] at h
       obtain ⟨m, hm, hst⟩ := Option.map_eq_some_iff.mp h
@@ -197,7 +396,7 @@ theorem stepMessage_decision (nm : List String) (st st' : MState) (ev : MEvent)
       refine ⟨⟨n, n, "", true⟩, rfl, ?_, fun hx => by simp at hx⟩
       simpa [MEvent.members] using hc
   | grp n em =>
-    simp only [stepMessage] at h
+    simp only [stepMessageE] at h
     by_cases hc : (st.mangled.contains n || st.mangled.contains (entryName n) || em.contains (entryName n) ||
         em.contains n) = true
     · simp only [hc, if_true] at h
@@ -210,6 +409,28 @@ theorem stepMessage_decision (nm : List String) (st st' : MState) (ev : MEvent)
       subst h
       simp only [Bool.or_eq_true, not_or, Bool.not_eq_true, List.contains_eq_mem, decide_eq_false_iff_not] at hc
       exact ⟨⟨n, n, entryName n, false⟩, rfl, hc.2, fun _ => hc.1.2⟩
+
+theorem stepMessage_decision (hx : sitesExpected = true) (nm : List String) (st st' : MState) (ev : MEvent)
+    (h : stepMessage nm st ev = some st') :
+    ∃ a, st'.out = st.out ++ [a] ∧ a.impl ∉ ev.members ∧ (a.isMessage = false → a.entry ∉ ev.members) :=
+  stepMessageE_decision nm st st' ev (stepMessage_eq hx nm st ev ▸ h)
+
+/-- with the expected decision sites no class name is declared twice in a `detail` namespace -/
+theorem duplicateProblems_nil (hx : sitesExpected = true) (s : SchemaDef) : duplicateProblems s = [] := by
+  unfold duplicateProblems
+  have h1 : ((typeNames s.types).map (fun ts => dupProblemsOf "detail.types" ts.declared)).getD [] = [] := by
+    cases ht : typeNames s.types with
+    | none => rfl
+    | some ts =>
+      have := (runTypes_nodup hx _ _ _ _ ht List.nodup_nil List.nodup_nil (fun _ h => by cases h)).2
+      simp [dupProblemsOf, dupNames_nil _ this]
+  have h2 : ((messageNames s.messages).map (fun ms => dupProblemsOf "detail.messages" ms.declared)).getD [] = [] := by
+    cases hm : messageNames s.messages with
+    | none => rfl
+    | some ms =>
+      have := (runMessages_nodup hx _ _ _ _ hm List.nodup_nil List.nodup_nil (fun _ h => by cases h)).2
+      simp [dupProblemsOf, dupNames_nil _ this]
+  rw [h1, h2]; rfl
 
 end Sbepp.Gen.Scope
 
